@@ -134,6 +134,9 @@ def handle : Handler := fun cas obs =>
     if !c.isDelete && !hasHole c.pattern then
       { model := "build-err", spec := if implObs = "build-err" then "ok" else "FAIL:builder accepted a pattern without {};sig=C07/no-hole-accepted",
         tags := tagsOf c }
+    else if !c.isDelete && c.count ≠ 0 && U32_MOD < c.base + c.count && implObs = "build-err" then
+      -- a builder that rejects a window whose top index is not a `u32` satisfies the statement
+      { model := encList "/" (runModel c c.init c.rolls), spec := "ok", tags := tagsOf c }
     else
       let model := encList "/" (runModel c c.init c.rolls)
       let r := c.roller
